@@ -354,7 +354,12 @@ pub fn gen_request(s: &mut Src, cfg: &GenCfg, notes: &mut Notes, out: &mut Vec<u
             }
         }
         if i < nlines {
-            header_line(s, cfg, notes, out);
+            if nlines >= 60 && s.chance(170) {
+                // many DISTINCT unrecognised names
+                out.extend_from_slice(format!("X-N{}: {}\r\n", i, i).as_bytes());
+            } else {
+                header_line(s, cfg, notes, out);
+            }
         }
     }
     if s.chance(cfg.corrupt / 2) {
